@@ -10,5 +10,5 @@ sys.path.insert(0, os.getcwd())
 from harness import lib
 st = lib.build(verbose=True)
 print(st["make_log"][-1500:])
-sys.exit(0 if (st["make_ok"] and st["driver_ok"] and st["translator_ok"] and st["translator_ser_ok"] and st["translator_ws_ok"]) else 1)
+sys.exit(0 if (st["make_ok"] and st["driver_ok"] and st["translator_ok"] and st["translator_ser_ok"] and st["translator_ws_ok"] and st["translator_hdr_ok"]) else 1)
 PY
